@@ -76,6 +76,14 @@ class DefaultList(Generic[T]):
     def __iter__(self) -> Iterator[T]:
         return iter(self._list)
 
+    def __eq__(self, other: object) -> bool:
+        if not isinstance(other, DefaultList):
+            return NotImplemented
+        return (
+            self._default_factory == other._default_factory
+            and self._list == other._list
+        )
+
     def __str__(self) -> str:
         return str(self._list)
 
@@ -183,6 +191,11 @@ class Function:
         """
         return {i: v for i, v in enumerate(self._value) if v != 0}
 
+    def __eq__(self, other: object) -> bool:
+        if not isinstance(other, Function):
+            return NotImplemented
+        return self.__dict__ == other.__dict__
+
     def __str__(self) -> str:
         parts = (
             f"{i} -> {v if v is not None else '∞'}" for i, v in enumerate(self._value)
@@ -201,6 +214,11 @@ class TableMethod:
         self._processing_queue: Deque[int] = Deque()
         self._current_gap: Tuple[int, int] = (1, 1)
         self._rule_holding_extra_terms: Set[int] = set()
+
+    def __eq__(self, other: object) -> bool:
+        if not isinstance(other, TableMethod):
+            return NotImplemented
+        return self.__dict__ == other.__dict__
 
     @property
     def function(self) -> Dict[int, Optional[int]]:
@@ -632,6 +650,17 @@ class RuleDBForest(RuleDBAbstract):
         self.table_method = TableMethod()
         self._already_empty: Set[int] = set()
         self._rule_cache = tuple(rule_cache)
+
+    def __eq__(self, other: object) -> bool:
+        """Check if all stored information is the same."""
+        if not isinstance(other, RuleDBForest):
+            return NotImplemented
+        return (
+            self.reverse == other.reverse
+            and self._num_rules == other._num_rules
+            and self._already_empty == other._already_empty
+            and self.table_method == other.table_method
+        )
 
     # Implementation of RuleDBAbstract
 
